@@ -1235,6 +1235,48 @@ def m_position(px, st, fr, ev):
     return val(("found", seq, ev["args"][1], ev["uid"], "position"))
 
 
+@model("core::slice::<impl [T]>::strip_prefix", reason="strip_prefix(literal): Some(s[k..]) iff s starts with the k literal bytes, else None")
+def m_slice_strip_prefix(px, st, fr, ev):
+    seq = seq_of(px, st, ev["args"][0])
+    lit = seq_of(px, st, ev["args"][1])
+    if not (isinstance(lit, tuple) and lit and lit[0] in ("bytes", "str")):
+        return None
+    k = len(lit[1])
+    sw = ("call", "core::slice::<impl [T]>::starts_with", (("&", seq), ("&", lit)), None)
+    px.mark_bool(sw)
+
+    def yes(c):
+        if not c.set_known(sw, 1):
+            return False
+        for i, ch in enumerate(lit[1]):
+            if not c.set_known(("proj", seq, ("cidx", i, False, 0)), ord(ch)):
+                return False
+        return True
+    rest = ("slice", seq[1], add_terms(seq[2], const(k)), seq[3]) if isinstance(seq, tuple) and seq[0] == "slice" and len(seq) == 4 else ("slice", seq, const(k), None)
+    return [
+        {"label": "prefix", "value": some(("slice_of", rest)), "assume": yes},
+        {"label": "no-prefix", "value": NONE, "assume": (lambda c: c.set_known(sw, 0))},
+    ]
+
+
+@model("std::iter::Iterator::count", reason="take_while(p).count() over a slice: the length n of the longest prefix whose elements all satisfy p (n <= len)")
+def m_count(px, st, fr, ev):
+    it = deref_val(px, st, ev["args"][0], depth=1)
+    if not (isinstance(it, tuple) and it and it[0] == "call" and it[1].endswith("Iterator::take_while") and len(it[2]) == 2):
+        return None
+    src, pred = it[2]
+    if isinstance(src, tuple) and src and src[0] == "&":
+        src = src[1]
+    if not (isinstance(src, tuple) and src and src[0] == "iter"):
+        return None
+    seq = src[1]
+    n = ("prefix_len", seq, pred)
+    TY.setdefault(n, (64, False))
+    ln = len_term(seq)
+    TY.setdefault(ln, (64, False))
+    return val(n, assume=(lambda c: (c.rel.append(("Le", n, ln)) or True)))
+
+
 @model("core::slice::<impl [T]>::iter", reason="iter() over the same sequence")
 def m_iter(px, st, fr, ev):
     return val(("iter", seq_of(px, st, ev["args"][0])))
